@@ -132,6 +132,7 @@ def main():
     common.setup_repo_path()
     import c16_lib
     import c16_nets
+    import c16_opts_nets
     import fbwalk
     import netgen
     import pipeline
@@ -224,7 +225,7 @@ def main():
             print("SPEC-REJ", meta[i][0], meta[i][1], doc, obs, meta[i][3], meta[i][4])
 
     # ---- (b) pipeline level -----------------------------------------------------------------------------------------
-    nets = c16_nets.cases(random.Random(ck.seed * 7919 + 16), ck.thorough)
+    nets = c16_opts_nets.all_cases(random.Random(ck.seed * 7919 + 16), ck.thorough)
     jobs = []
     for idx, (label, net) in enumerate(nets):
         try:
@@ -234,7 +235,7 @@ def main():
             continue
         accs = ACCS if ck.thorough else [ACCS[(idx + k * 3 + ck.seed) % 6] for k in range(2 if idx % 7 == 0 else 1)]
         for acc in accs:
-            opts = ["--accelerator-config", acc]
+            opts = ["--accelerator-config", acc] + list(getattr(net, "extra_opts", []))
             if (idx + ck.seed) % 5 == 0:
                 opts.append("--show-cpu-operations")
             jobs.append((ck.seed, idx, label, data, opts, getattr(net, "tgt", None)))
@@ -369,9 +370,8 @@ def main():
     ck.count("cpu_ops_compared_with_source", len(same_reqs))
     rep_changed = 0
     for (r, so, oo), _a in changed:
-        parts_s, parts_o = so["canon"].split("|"), oo["canon"].split("|")
-        what = [n for n, x, y in zip(("code", "custom code", "options type", "options", "custom options", "inputs", "outputs"), parts_s, parts_o) if x != y]
-        key = f"cpu-op-changed:{so['code']}:{'+'.join(w.replace(' ', '_') for w in what)}"
+        what = c16_lib.canon_diff(so["canon"], oo["canon"])
+        key = f"cpu-op-changed:{so['code']}:{'+'.join(w.replace(' ', '_') for w in what)}" + (":force-symmetric" if "--force-symmetric-int-weights" in r["opts"] else "")
         if ck.finding_key_known(key) is None:
             rep_changed += 1
             if rep_changed > 4:
@@ -467,6 +467,7 @@ def replay(ck, path):
 
     import c16_lib
     import c16_nets
+    import c16_opts_nets
     import fbwalk
     import netgen
 
@@ -490,7 +491,7 @@ def replay(ck, path):
         else:
             print("case not found")
     elif "index" in body:
-        nets = c16_nets.cases(random.Random(seed * 7919 + 16), rp.get("tier") == "thorough")
+        nets = c16_opts_nets.all_cases(random.Random(seed * 7919 + 16), rp.get("tier") == "thorough")
         label, net = nets[int(body["index"])]
         r = _compile_job((seed, int(body["index"]), label, netgen.serialize(net), body["opts"], getattr(net, "tgt", None)))
         print(f"network '{label}' {body['opts']}: {r.get('status')} {r.get('exc', '')}")
